@@ -12,7 +12,8 @@ RULE = ("contract on the real dykstra with projectors wrapped to count calls (sw
         "=> inside it exactly; a point already in all sets returned within 1e-14(1+|x|). Inputs: n in 1..6, 1-4 balls/half-spaces/"
         "boxes with common interior (margin >= 1e-2), starts near and far (up to 30 set diameters), tolerances {1e-6..1e-14}, "
         "max_iter {3,20,100,1000}. The feasibility / sweep clauses also run in situ on every internal call of convex-constrained "
-        "solver runs. Non-trivial = call that needed >= 2 sweeps (start outside at least one set); distinct by input index")
+        "solver runs. Non-trivial = call that needed >= 2 sweeps (start outside at least one set); distinct by input index"
+        " Second session: distances and references computed with the harness's own projectors; in-place projectors, projectors sharing one output buffer; geometries scaled by 10..1e4 with starts a relative hair outside a ball under tolerances down to 1e-15.")
 ASSUMPTIONS = ["reference projection accepted only if the variational inequality (x0-x*).(z-x*) <= 1e-9 holds on sampled feasible z "
                "(uncertified reference => that clause is not evaluated for the case, counted)",
                "the 1e-3 optimality clause is evaluated for tolerances <= 1e-9 only: for looser tolerances the bound is vacuous "
